@@ -85,6 +85,10 @@ type Expect struct {
 	// MemExtra: bytes the declared counts may legitimately cost while they stay within their limits
 	// (16 bytes per cross-reference entry declared and admitted by MaxObjectCount / MaxXRefEntries).
 	MemExtra int64 `json:"mem_extra,omitempty"`
+	// StageTag (family predpipe): filter and predictor family of the stage built to exceed the limit,
+	// e.g. "LZW+png"; part of the violation keys. BombStage is the index of that stage.
+	StageTag  string `json:"stage_tag,omitempty"`
+	BombStage int    `json:"bomb_stage,omitempty"`
 }
 
 // Case is one unit of work for a child process.
